@@ -18,7 +18,7 @@ G: the same runs dump every expression as text with the predicted reports.  The 
    The real exported tree BuiltinUntrustedInputs is walked and compared with the documented list of
    the spec; a differing path is turned into a concrete expression and judged the same way.
    End to end: a sample is rendered into workflows and linted: script positions (run:, script: of
-   actions/github-script) report exactly what the API level reports, non-script positions (env:,
+   actions/github-script at any ref, the input key in any letter case) report exactly what the API level reports, non-script positions (env:,
    with: of other actions, other inputs of github-script, if:, name:) never report.
 T: seeded random deep expressions are run on the real code, recorded and validated by TLC.
 """
@@ -34,9 +34,9 @@ LEVEL = 'model_checking'
 
 CFGS = {
     'quick': [('Untrusted_quick.cfg', 'chains <= 5 segments, <= 1 unusual spelling (or all alike), 6 embeddings'),
-              ('Untrusted_quick_emb.cfg', 'plain chains <= 4 segments, 21 embeddings, second chain <= 3 segments')],
-    'thorough': [('Untrusted_thorough.cfg', 'chains <= 5 segments, <= 2 unusual spellings (or all alike), 13 embeddings'),
-                 ('Untrusted_thorough_emb.cfg', 'plain chains <= 5 segments, 24 embeddings, second chain <= 3 segments')],
+              ('Untrusted_quick_emb.cfg', 'plain chains <= 4 segments, 23 embeddings, second chain <= 3 segments')],
+    'thorough': [('Untrusted_thorough.cfg', 'chains <= 5 segments, <= 2 unusual spellings (or all alike), 14 embeddings'),
+                 ('Untrusted_thorough_emb.cfg', 'plain chains <= 5 segments, 26 embeddings, second chain <= 3 segments')],
 }
 
 # ---- workflow renderings: (name, is script position, template of the steps)
@@ -46,6 +46,13 @@ POSITIONS = [
     ('run', True, '      - run: "echo ${{ %s }}"\n'),
     ('run-block', True, '      - run: |\n          echo start\n          echo ${{ %s }}\n'),
     ('github-script', True, '      - uses: actions/github-script@v7\n        with:\n          script: "console.log(${{ %s }})"\n'),
+    # input names are case-insensitive (the parser keys `with:` by the lower-cased name)
+    ('github-script-key-Script', True, '      - uses: actions/github-script@v7\n        with:\n          Script: "console.log(${{ %s }})"\n'),
+    ('github-script-key-SCRIPT', True, '      - uses: actions/github-script@v7\n        with:\n          SCRIPT: "console.log(${{ %s }})"\n'),
+    # any ref of the action (actions/github-script@*)
+    ('github-script-main', True, '      - uses: actions/github-script@main\n        with:\n          script: "console.log(${{ %s }})"\n'),
+    ('github-script-sha', True, '      - uses: actions/github-script@60a0d83039c74a4aee543508d2ffcb1c3799cdea\n        with:\n'
+                                '          script: "console.log(${{ %s }})"\n'),
     ('env', False, '      - run: echo "$V"\n        env:\n          V: "${{ %s }}"\n'),
     ('with-other-action', False, '      - uses: actions/checkout@v4\n        with:\n          ref: "${{ %s }}"\n'),
     ('github-script-other-input', False, '      - uses: actions/github-script@v7\n        with:\n          script: "1"\n'
@@ -55,6 +62,10 @@ POSITIONS = [
     ('if-bare', False, '      - run: echo\n        if: "%s"\n'),
     ('name', False, '      - name: "${{ %s }}"\n        run: echo\n'),
 ]
+
+
+SCRIPT_POS = [i for i, p in enumerate(POSITIONS) if p[1]]
+OTHER_POS = [i for i, p in enumerate(POSITIONS) if not p[1]]
 
 
 def norm(reps):
@@ -364,7 +375,8 @@ def lint_part(ck, sd, fs, rng, pool, limit):
     cases = []
     for i, (text, pred, real) in enumerate(chosen):
         # every expression in one script position and two non-script positions (rotating), all positions for the first 200
-        idxs = range(len(POSITIONS)) if i < 200 else [i % 3] + [3 + (i + k) % 7 for k in (0, 3)]
+        idxs = range(len(POSITIONS)) if i < 200 else [SCRIPT_POS[i % len(SCRIPT_POS)]] + \
+            [OTHER_POS[(i + k) % len(OTHER_POS)] for k in (0, 3)]
         for j in idxs:
             name, script, tmpl = POSITIONS[j]
             cases.append({'expr': text, 'pred': pred, 'api': real, 'pos': name, 'script': script, 'src': render(tmpl, text)})
@@ -400,6 +412,7 @@ def lint_part(ck, sd, fs, rng, pool, limit):
     ck.cov['lint_renderings'] = len(cases)
     ck.cov['lint_positions'] = [p[0] for p in POSITIONS]
     ck.cov['lint_script_renderings_reported'] = script_reported
+    ck.cov['lint_renderings_per_position'] = {p[0]: sum(1 for c in cases if c['pos'] == p[0]) for p in POSITIONS}
     if not script_reported:
         raise Inconclusive('no rendered script position was reported at all: the renderings do not bind to the rule')
     if same_as_api:
